@@ -38,6 +38,7 @@ pub static INFO: PropInfo = PropInfo {
         ("e2e_messages_obtained", 2000),
         ("interference_only_runs", 10),
         ("clean_relay_runs", 5),
+        ("runs_with_same_id_twin", 20),
     ],
     engines_quick: &["e1"],
     engines_thorough: &["e1", "e3"],
@@ -299,6 +300,21 @@ fn one_run_inner(ctx: &Ctx, out: &mut Outcome, run_seed: u64) {
             }
         }
     }
+    // sometimes a second client presents another token for the SAME client id from another address at
+    // the same time: at most one of the two may be connected at any moment, in both layers
+    if r.chance(1, 4) {
+        let id = w.peers[0].id;
+        match w.new_peer(&mut r, id, 0) {
+            Ok(p) => {
+                w.peers.push(p);
+                out.count("runs_with_same_id_twin");
+            }
+            Err(e) => {
+                out.inconclusive(&format!("C20: twin client transport: {e}"));
+                return;
+            }
+        }
+    }
     let total_ticks = r.range(60, if ctx.thorough() { 600 } else { 260 });
     let settle_from = total_ticks; // after this: relay is clean, no new actions
     let timeout_ms = timeout_s as u64 * 1000;
@@ -445,7 +461,9 @@ fn one_run_inner(ctx: &Ctx, out: &mut Outcome, run_seed: u64) {
                 connected_total += 1;
                 out.count("clients_connected");
                 fp.u64(0xC0 ^ id);
-                if let Some(p) = w.peers.iter_mut().find(|p| p.id == id) {
+                // attribute the session to the peer whose (relay back socket) address the transport reports
+                let session_addr = w.st.client_addr(id);
+                if let Some(p) = w.peers.iter_mut().find(|p| p.id == id && p.back.local_addr().ok() == session_addr) {
                     p.connect_events += 1;
                     if p.connect_events > 1 {
                         p.resurrected = true;
@@ -454,6 +472,11 @@ fn one_run_inner(ctx: &Ctx, out: &mut Outcome, run_seed: u64) {
                 }
             } else {
                 w.server_closed.insert(id, (w.now_ms, "event"));
+                // the server-side end of a closed peer's session is also witnessed by its event (a twin
+                // with the same id may take the slot within the same transport update)
+                for p in w.peers.iter_mut().filter(|p| p.id == id && p.app_closed) {
+                    p.server_gone_seen = true;
+                }
                 // a session that ends although nobody asked for it, in an interference-only run
                 let asked = w.peers.iter().any(|p| p.id == id && p.app_closed);
                 if relay.interference_only && !asked {
@@ -566,14 +589,26 @@ fn one_run_inner(ctx: &Ctx, out: &mut Outcome, run_seed: u64) {
             }
         }
         // ---- applications drain ------------------------------------------------------------------
-        for k in 0..w.peers.len() {
-            let id = w.peers[k].id;
+        // server side: per id, attributed to the peer that holds the netcode session of that id
+        let ids: BTreeSet<u64> = w.peers.iter().map(|p| p.id).collect();
+        for id in ids {
+            let session_addr = w.st.client_addr(id);
+            let holder = w.peers.iter().position(|p| p.id == id && session_addr.is_some() && p.back.local_addr().ok() == session_addr);
             for ch in [CH_U, CH_RU, CH_RO] {
                 while let Some(m) = w.server.receive_message(id, ch) {
-                    if !check_message(ctx, out, &mut w, run_seed, k, 0, ch, &m) {
-                        return;
+                    match holder {
+                        Some(k) => {
+                            if !check_message(ctx, out, &mut w, run_seed, k, 0, ch, &m) {
+                                return;
+                            }
+                        }
+                        None => out.count("e2e_messages_without_session_holder"),
                     }
                 }
+            }
+        }
+        for k in 0..w.peers.len() {
+            for ch in [CH_U, CH_RU, CH_RO] {
                 while let Some(m) = w.peers[k].client.receive_message(ch) {
                     if !check_message(ctx, out, &mut w, run_seed, k, 1, ch, &m) {
                         return;
